@@ -110,8 +110,10 @@ func (c Concurrent) Hash(files []string) (string, error) {
 			errors = append(errors, fmt.Errorf("Could not get hash result for %s: %w", r.file, r.err))
 		}
 
-		// Include the filepath in the hash so a rename counts as a change
-		hashItem := [][]byte{r.hash, []byte(r.file)}
+		// Include the filepath in the hash so a rename counts as a change, the path is itself
+		// hashed so every item has the same width and the items cannot run into each other
+		pathSum := sha256.Sum256([]byte(r.file))
+		hashItem := [][]byte{r.hash, pathSum[:]}
 		joinedHashItem := []byte(bytes.Join(hashItem, []byte(""))) //nolint: unconvert
 		accumulator = append(accumulator, joinedHashItem)
 	}
